@@ -29,7 +29,7 @@ func (eval Evaluator) Automorphism(ctIn *Ciphertext, galEl uint64, opOut *Cipher
 		return fmt.Errorf("cannot apply Automorphism: %w", err)
 	}
 
-	level := utils.Min(ctIn.Level(), opOut.Level())
+	level := utils.Min(utils.Min(ctIn.Level(), opOut.Level()), evk.LevelQ())
 
 	opOut.Resize(opOut.Degree(), level)
 
